@@ -6,6 +6,7 @@ Full statements: `ZV/Props/C12Statements.lean`.
 -/
 import ZV.Props.C12Statements
 import ZV.Proofs.Escape
+import ZV.Props.C12Grouping
 
 namespace ZV.Props.C12
 open ZV.Escape
@@ -26,7 +27,42 @@ theorem respell_idempotent : Statement.respell_idempotent := ZV.Escape.respell_i
 /-- Two different strings are never written the same way. -/
 theorem spell_injective : Statement.spell_injective := ZV.Escape.spell_injective_pf
 
+/-! Grouping elision (`ZV/Props/C12Grouping.lean`, statements in `ZV/Props/C12GroupingStatements.lean`) -/
+
+/-- The checker the driver answers with decides the derivation relation of the grammar table. -/
+theorem grouping_derives_iff : Grouping.Statement.derives_iff := Grouping.derives_iff
+/-- At every child position the formatter asks for at most what the grammar accepts there. -/
+theorem grouping_req_le_gram : Grouping.Statement.req_le_gram := Grouping.req_le_gram
+/-- Under every such table, every layout oracle, everywhere: the formatted tree is a derivation. -/
+theorem grouping_elide_derives_table : Grouping.Statement.elide_derives_table := Grouping.elide_derives_table
+/-- Formatting a derivation of `Term` gives a derivation of `Term`. -/
+theorem grouping_elide_derives : Grouping.Statement.elide_derives := Grouping.elide_derives
+/-- The same for `TermAnn`. -/
+theorem grouping_elide_derives_ann : Grouping.Statement.elide_derives_ann := Grouping.elide_derives_ann
+/-- Even a tree that is not a derivation is printed as one. -/
+theorem grouping_elide_total : Grouping.Statement.elide_total := Grouping.elide_total
+/-- Nothing but parentheses changes. -/
+theorem grouping_elide_strip : Grouping.Statement.elide_strip := Grouping.elide_strip
+/-- No child position asks for strictly less than the grammar accepts. -/
+theorem grouping_elide_complete_at : Grouping.Statement.elide_complete_at := Grouping.elide_complete_at
+/-- The acceptance test coincides with derivability at the position. -/
+theorem grouping_accepts_iff_derives : Grouping.Statement.accepts_iff_derives := Grouping.accepts_iff_derives
+/-- A constructor argument always comes out as a group. -/
+theorem grouping_ctor_argument_grouped : Grouping.Statement.ctor_argument_grouped := Grouping.ctor_argument_grouped
+/-- Formatting twice is formatting once. -/
+theorem grouping_elide_idempotent : Grouping.Statement.elide_idempotent := Grouping.elide_idempotent
+/-- With the arrow's left requirement widened, `(x -> _) -> 1` is printed as `x -> _ -> 1`. -/
+theorem grouping_unsafe_when_widened : Grouping.Statement.unsafe_when_widened := Grouping.unsafe_when_widened
+
 namespace Demo
+/-- non-vacuity of the grouping theorems: `f ((g x))` becomes `f (g x)`, `(x -> _) -> 1` stays -/
+theorem grouping_examples :
+    ZV.Grouping.elide ZV.Grouping.dropAll (.app (.leaf .var) (.paren (.paren (.app (.leaf .var) (.leaf .var)))))
+      = .app (.leaf .var) (.paren (.app (.leaf .var) (.leaf .var))) ∧
+    ZV.Grouping.elide ZV.Grouping.dropAll (.arrow (.paren (.arrow (.leaf .var) (.leaf .hole))) (.leaf .lit))
+      = .arrow (.paren (.arrow (.leaf .var) (.leaf .hole))) (.leaf .lit) :=
+  ⟨Grouping.Demo.double_parens, Grouping.Demo.arrow_left_kept⟩
+
 /-- non-vacuity: a string with every kind of special character -/
 theorem read_spell_example :
     ZV.Escape.read (spell ['a', '\\', '"', '\n', '\x00', '​']) = some ['a', '\\', '"', '\n', '\x00', '​'] := by
